@@ -115,6 +115,8 @@ def build_inputs(ctx):
         inputs.append(("planted", g1.planted(rng, n=rng.randint(10, ctx.pick(160, 400)))))
     for _ in range(ctx.pick(1200, 15000)):
         inputs.append(("dense", g1.small_dense(rng)))
+    for _ in range(ctx.pick(800, 10000)):
+        inputs.append(("tight", g1.tight(rng)))
     for k in range(2, ctx.pick(7, 9)):
         inputs.append(("ladder%d" % k, g1.ladder(k, stemlen=rng.randint(1, 3), gap=rng.randint(0, 1))))
     # stems of unequal lengths in small dense conflict graphs (where the objective's weights matter)
